@@ -193,11 +193,13 @@ func (h *Hook) OnDisconnect(cl *mqtt.Client, _ error, expire bool) {
 		return
 	}
 
-	if !expire {
-		return
+	if cl.StopCause() == packets.ErrSessionTakenOver {
+		return // the stored record now belongs to the connection that took the session over
 	}
 
-	if cl.StopCause() == packets.ErrSessionTakenOver {
+	h.updateClient(cl)
+
+	if !expire {
 		return
 	}
 
